@@ -266,16 +266,16 @@ fn observe(consumer: &ConsumingIovec<'_>, buffers: &[(usize, usize)], who: &str)
     let mut stable = Vec::new();
     for (i, s) in consumer.stable_prefix().iter().enumerate() {
         if s.is_empty() {
-            return Err(format!("{}: exposed slice #{} is empty", who, i));
+            return Err(format!("[content] {}: exposed slice #{} is empty", who, i));
         }
         if !slice_ok(s.as_ptr() as usize, s.len(), buffers) {
-            return Err(format!("{}: exposed slice #{} ({} bytes) is neither in a live arena chunk nor in a caller buffer", who, i, s.len()));
+            return Err(format!("[live] {}: exposed slice #{} ({} bytes) is neither in a live arena chunk nor in a caller buffer", who, i, s.len()));
         }
         stable.extend_from_slice(s);
     }
     let total = consumer.total_size();
     if stable.len() > total {
-        return Err(format!("{}: {} stable bytes but total_size() = {}", who, stable.len(), total));
+        return Err(format!("[prefix] {}: {} stable bytes but total_size() = {}", who, stable.len(), total));
     }
     Ok((stable, total))
 }
@@ -289,7 +289,7 @@ fn drain(consumer: &mut ConsumingIovec<'_>, d: D, stable: &[u8], who: &str) -> R
             let k = if d == D::Consume1 { 1 } else { usize::MAX };
             let got = consumer.consume(k);
             if got != k.min(lens.len()) {
-                return Err(format!("{}: consume returned {} with {} stable slices", who, got, lens.len()));
+                return Err(format!("[prefix] {}: consume returned {} with {} stable slices", who, got, lens.len()));
             }
             lens[..got].iter().sum()
         }
@@ -297,7 +297,7 @@ fn drain(consumer: &mut ConsumingIovec<'_>, d: D, stable: &[u8], who: &str) -> R
             let k = if d == D::Advance1 { 1 } else { usize::MAX };
             let got = consumer.advance_slices(k);
             if got != k.min(stable.len()) {
-                return Err(format!("{}: advance_slices returned {} with {} stable bytes", who, got, stable.len()));
+                return Err(format!("[prefix] {}: advance_slices returned {} with {} stable bytes", who, got, stable.len()));
             }
             got
         }
@@ -305,7 +305,7 @@ fn drain(consumer: &mut ConsumingIovec<'_>, d: D, stable: &[u8], who: &str) -> R
             let mut buf = [0u8; 2];
             let got = consumer.read(&mut buf).map_err(|e| format!("{}: read failed: {}", who, e))?;
             if got != 2.min(stable.len()) || buf[..got] != stable[..got] {
-                return Err(format!("{}: read returned {} bytes {:02X?} with stable prefix starting {:02X?}", who, got, &buf[..got], &stable[..stable.len().min(2)]));
+                return Err(format!("[prefix] {}: read returned {} bytes {:02X?} with stable prefix starting {:02X?}", who, got, &buf[..got], &stable[..stable.len().min(2)]));
             }
             got
         }
@@ -316,7 +316,7 @@ fn drain(consumer: &mut ConsumingIovec<'_>, d: D, stable: &[u8], who: &str) -> R
         rest.extend_from_slice(s);
     }
     if rest != stable[removed..] {
-        return Err(format!("{}: after {:?} the stable bytes are not the previous ones minus the {} removed", who, d, removed));
+        return Err(format!("[prefix] {}: after {:?} the stable bytes are not the previous ones minus the {} removed", who, d, removed));
     }
     Ok(removed)
 }
@@ -350,7 +350,7 @@ pub fn run_encode(input: &[u8], pieces: &[Piece], limits: Limits, prefill: &[u8]
         obs.max_lag = obs.max_lag.max(lag);
         let bound = owning_iovec::verif::max_chunk_size_seen() + later + 2;
         if lag > bound {
-            return Err(format!("encoder lag: {} bytes produced but not consumable, bound is one arena chunk ({}) + one HCOBS chunk ({}) + header (2)", lag, owning_iovec::verif::max_chunk_size_seen(), later));
+            return Err(format!("[prefix] encoder lag: {} bytes produced but not consumable, bound is one arena chunk ({}) + one HCOBS chunk ({}) + header (2)", lag, owning_iovec::verif::max_chunk_size_seen(), later));
         }
         let removed = drain(&mut consumer, p.d, &stable, "encoder")?;
         snaps.push((drained.len(), stable));
@@ -364,20 +364,20 @@ pub fn run_encode(input: &[u8], pieces: &[Piece], limits: Limits, prefill: &[u8]
     };
     for (i, s) in out.stable_prefix().iter().enumerate() {
         if !slice_ok(s.as_ptr() as usize, s.len(), &buffers) {
-            return Err(format!("encoder: final slice #{} is neither in a live arena chunk nor in a caller buffer", i));
+            return Err(format!("[live] encoder: final slice #{} is neither in a live arena chunk nor in a caller buffer", i));
         }
     }
     let mut output = drained;
     output.extend_from_slice(&rest);
     for (at, stable) in &snaps {
         if output.len() < at + stable.len() || output[*at..at + stable.len()] != stable[..] {
-            return Err(format!("encoder: bytes consumable after a call (offset {}, {} bytes) are not a prefix of the final output", at, stable.len()));
+            return Err(format!("[prefix] encoder: bytes consumable after a call (offset {}, {} bytes) are not a prefix of the final output", at, stable.len()));
         }
     }
     drop(out);
     let live1 = (ByteArena::num_live_chunks(), ByteArena::num_live_bytes());
     if live1 != live0 {
-        return Err(format!("arena leak after dropping the encoder output: live (chunks, bytes) {:?} -> {:?}", live0, live1));
+        return Err(format!("[leak] arena leak after dropping the encoder output: live (chunks, bytes) {:?} -> {:?}", live0, live1));
     }
     if output.len() < prefill.len() || output[..prefill.len()] != *prefill {
         return Err("output does not start with the pre-filled iovec contents".into());
@@ -392,7 +392,7 @@ pub fn run_decode(encoded: &[u8], pieces: &[Piece], limits: Limits, prefill: &[u
     let verdict = run_decode_inner(encoded, pieces, limits, prefill, obs)?;
     let live1 = (ByteArena::num_live_chunks(), ByteArena::num_live_bytes());
     if live1 != live0 {
-        return Err(format!("arena leak after dropping the decoder: live (chunks, bytes) {:?} -> {:?}", live0, live1));
+        return Err(format!("[leak] arena leak after dropping the decoder: live (chunks, bytes) {:?} -> {:?}", live0, live1));
     }
     Ok(verdict)
 }
@@ -423,7 +423,7 @@ fn run_decode_inner(encoded: &[u8], pieces: &[Piece], limits: Limits, prefill: &
         obs.dec_states.push(dec.state_key());
         let mut consumer = dec.consumer();
         if stable.len() != total || consumer.has_pending_backrefs() {
-            return Err(format!("decoder lag: {} of {} produced bytes are consumable (must be all)", stable.len(), total));
+            return Err(format!("[prefix] decoder lag: {} of {} produced bytes are consumable (must be all)", stable.len(), total));
         }
         let removed = drain(&mut consumer, p.d, &stable, "decoder")?;
         snaps.push((drained.len(), stable));
@@ -437,14 +437,14 @@ fn run_decode_inner(encoded: &[u8], pieces: &[Piece], limits: Limits, prefill: &
                 let rest = out.flatten().map_err(|_| "decoder output has a pending placeholder".to_string())?;
                 for (i, s) in out.stable_prefix().iter().enumerate() {
                     if !slice_ok(s.as_ptr() as usize, s.len(), &buffers) {
-                        return Err(format!("decoder: final slice #{} is neither in a live arena chunk nor in a caller buffer", i));
+                        return Err(format!("[live] decoder: final slice #{} is neither in a live arena chunk nor in a caller buffer", i));
                     }
                 }
                 let mut output = drained;
                 output.extend_from_slice(&rest);
                 for (at, stable) in &snaps {
                     if output.len() < at + stable.len() || output[*at..at + stable.len()] != stable[..] {
-                        return Err("decoder: bytes consumable after a call are not a prefix of the final output".into());
+                        return Err("[prefix] decoder: bytes consumable after a call are not a prefix of the final output".into());
                     }
                 }
                 if output.len() < prefill.len() || output[..prefill.len()] != *prefill {
@@ -460,26 +460,35 @@ fn run_decode_inner(encoded: &[u8], pieces: &[Piece], limits: Limits, prefill: &
 /// All oracles on one encoder output (C02 + C07 encoder half).
 pub fn judge_encoding(input: &[u8], output: &[u8], limits: Limits) -> Result<(), String> {
     let (first, later) = limits_of(limits);
+    let mut failures: Vec<String> = Vec::new();
     if refcodec::contains_stuff(output) {
-        return Err(format!("output contains the stuff sequence FE FD at offset {}", refcodec::find_stuff(output).unwrap()));
+        failures.push(format!("[shape] output contains the stuff sequence FE FD at offset {}", refcodec::find_stuff(output).unwrap()));
     }
     let canon = refcodec::encode(input, first, later);
     if output != canon.as_slice() {
         let at = output.iter().zip(canon.iter()).position(|(a, b)| a != b).unwrap_or(output.len().min(canon.len()));
-        return Err(format!(
-            "output differs from the canonical encoding at offset {} (lengths {} vs {}): got [{}] expected [{}]",
+        failures.push(format!(
+            "[canon] output differs from the canonical encoding at offset {} (lengths {} vs {}): got [{}] expected [{}]",
             at,
             output.len(),
             canon.len(),
-            mc_core::hex(&output[at.saturating_sub(4)..output.len().min(at + 8)]),
-            mc_core::hex(&canon[at.saturating_sub(4)..canon.len().min(at + 8)])
+            mc_core::hex(&output[at.saturating_sub(4).min(output.len())..output.len().min(at + 8)]),
+            mc_core::hex(&canon[at.saturating_sub(4).min(canon.len())..canon.len().min(at + 8)])
         ));
     }
     if limits.is_none() {
         let bound = input.len() + 1 + 2 * input.len().div_ceil(64008);
         if output.len() > bound {
-            return Err(format!("output length {} exceeds len + 1 + 2*ceil(len/64008) = {}", output.len(), bound));
+            failures.push(format!("[shape] output length {} exceeds len + 1 + 2*ceil(len/64008) = {}", output.len(), bound));
         }
     }
-    Ok(())
+    // the first failure whose class is switched on for this check; else the first one at all
+    // (the caller filters irrelevant ones out)
+    match failures.iter().find(|f| mc_core::relevant(f)) {
+        Some(f) => Err(f.clone()),
+        None => match failures.into_iter().next() {
+            Some(f) => Err(f),
+            None => Ok(()),
+        },
+    }
 }
